@@ -151,7 +151,7 @@ Definition latch_rel (l : latch) (since : option Z) : Prop :=
   | Some t => f_lt FConstants.LOSS_DEGRADE_ENTER (l_ewma l) = true /\ 0 <= t <= l_high_since l
   end.
 
-Record R (s : link) (m : mon) : Prop := mkR {
+Record SimR (s : link) (m : mon) : Prop := mkR {
   R_inv : core_inv (k_core s);
   R_bad : m_bad m = 0%N;
   R_tgt : m_tgt m = c_target (k_core s);
@@ -161,7 +161,7 @@ Record R (s : link) (m : mon) : Prop := mkR {
   R_rtt : m_rtt_seen m = false -> r_ewma (k_rtt s) = fzero;
   R_latch : latch_rel (k_latch s) (m_since m) }.
 
-Lemma R_default : R link_default mon_default.
+Lemma R_default : SimR link_default mon_default.
 Proof.
   constructor; try reflexivity.
   - apply core_inv_default.
@@ -176,7 +176,7 @@ Lemma first_code_ok a b c d e f g ca cb cc cd ce cf cg :
   first_code [(a, ca); (b, cb); (c, cc); (d, cd); (e, ce); (f, cf); (g, cg)] = 0%N.
 Proof. intros; subst; reflexivity. Qed.
 
-(** latch clauses and the latch part of [R], for a tick that updates the loss average *)
+(** latch clauses and the latch part of [SimR], for a tick that updates the loss average *)
 Lemma latch_step l since now e :
   0 <= now -> latch_rel l since ->
   let l' := update_loss_ewma l e now in
@@ -211,8 +211,8 @@ Qed.
 
 (** the heart: one link step of the model, observed through its snapshot, keeps every clause *)
 Lemma step_R s m now i :
-  R s m -> 0 <= now -> rtt_stays_valid s now i = true ->
-  R (link_step s now i) (mon_step m now i (lobs_of (link_step s now i))).
+  SimR s m -> 0 <= now -> rtt_stays_valid s now i = true ->
+  SimR (link_step s now i) (mon_step m now i (lobs_of (link_step s now i))).
 Proof.
   intros [Hinv Hbad Htgt Hst Hseed Hdeg Hrtt Hlatch] Hnow Hvalid.
   pose proof (core_inv_step s now i Hinv) as Hinv'.
@@ -301,15 +301,15 @@ Qed.
 
 (** ---- lifting the relation to the two association lists ---- *)
 Definition MapRel (c : ctrl) (mc : mctrl) : Prop :=
-  Forall2 (fun x y => fst x = fst y /\ R (snd x) (snd y)) c mc.
+  Forall2 (fun x y => fst x = fst y /\ SimR (snd x) (snd y)) c mc.
 
-Lemma MapRel_getd c mc k : MapRel c mc -> R (getd link_default c k) (getd mon_default mc k).
+Lemma MapRel_getd c mc k : MapRel c mc -> SimR (getd link_default c k) (getd mon_default mc k).
 Proof.
   unfold getd. induction 1 as [|[k1 s1] [k2 m2] c mc [E HR] _ IH]; cbn; [apply R_default|].
   cbn in E, HR. subst k2. destruct (k =? k1); [exact HR|exact IH].
 Qed.
 
-Lemma MapRel_upsert c mc k s m : MapRel c mc -> R s m -> MapRel (upsert c k s) (upsert mc k m).
+Lemma MapRel_upsert c mc k s m : MapRel c mc -> SimR s m -> MapRel (upsert c k s) (upsert mc k m).
 Proof.
   intros H HR. induction H as [|[k1 s1] [k2 m2] c mc [E HR1] Hrest IH]; cbn.
   - constructor; [split; [reflexivity|exact HR]|constructor].
